@@ -91,7 +91,9 @@ class C08(CompSpec):
         "collector processes (real ResultsAggregator.load(out).process_results(), 1-4 rounds each) scheduled at audit granularity (marker create/remove on the consolidated and "
         "per-node locks, directory scan, each open/remove) under walk / sticky / pct policies; call and return events recorded at the actors' boundary; oracle: multiset union of all "
         "collections (+ one final collection) == rows appended, fields equal, list_results equal, consolidated file parses with csv and with JADE's reader at every instant its lock "
-        "is free; non-trivial = history with >= 1 append that found its node file deleted (header re-creation) and >= 1 lock contention; distinct = hash of the shared-object operation sequence"
+        "is free; plus free-running histories (no scheduler: 2-6 real writer processes appending 5-40 rows each while 1-3 collector processes loop, real clocks) with the same exactly-once "
+        "oracle; non-trivial = history with >= 1 append that found its node file deleted (header re-creation) and >= 1 lock contention (free-running: >= 5 collections, >= 2 writers); distinct = hash of "
+        "the shared-object operation sequence"
     )
 
     def tasks(self, tier, seed):
@@ -113,16 +115,27 @@ class C08(CompSpec):
                 "hashseed": rng.choice([0, 1]),
             }
             out.append({"fn": "sim", "args": {"scen": scen, "seed": s, "id": i, "cls": "comp.c08:S8", "prepare": "comp.c08:prepare", "trace_n": 150}})
+        # free-running histories: real parallel processes, no scheduler (what the serialized model treats as atomic)
+        nfree = {"quick": 14, "thorough": 280}[tier]
+        per = {"quick": 2, "thorough": 5}[tier]
+        for k in range(nfree):
+            out.append({"fn": "comp.c08:free_run", "args": {"seed": sub_seed(seed, k, "C08free"), "count": per}, "timeout": 600})
         return out
 
     def shape(self, t, r):
+        if t["fn"] != "sim":
+            return "free"
         sc = t["args"]["scen"]
         return f"{len(sc['writers'])}w{len(sc['collectors'])}c"
 
     def nontrivial(self, t, r):
+        if t["fn"] != "sim":
+            return len(r.get("nontrivial_hashes") or []) >= 1
         return (r.get("header_recreations") or 0) >= 1 and (r.get("lock_contentions") or 0) >= 1
 
     def sample(self, t, r):
+        if t["fn"] != "sim":
+            return (r.get("samples") or [{}])[0]
         sc = t["args"]["scen"]
         return {"writers": sc["writers"], "collector_rounds": sc["collectors"], "policy": sc["policy"]["kind"], "lock_mode": sc["filelock"] or "installed filelock", "seed": t["args"]["seed"],
                 "observed": {k: r.get(k) for k in ("rows", "collections", "parse_checks", "header_recreations", "lock_contentions", "steps", "switches", "sig")}}
@@ -138,10 +151,15 @@ class C08(CompSpec):
             "scheduling_steps": total(ok, "steps"),
             "context_switches": total(ok, "switches"),
             "history_events": total(ok, "history_events"),
-            "policies": hist(t["args"]["scen"]["policy"]["kind"] for t in tasks),
+            "policies": hist(t["args"]["scen"]["policy"]["kind"] for t in tasks if t["fn"] == "sim"),
+            "free_running_histories": sum(r.get("cases") or 0 for r in ok if r.get("free_running")),
+            "free_running_rows": sum(r.get("rows") or 0 for r in ok if r.get("free_running")),
+            "free_running_collections": sum(r.get("collections") or 0 for r in ok if r.get("free_running")),
         }
 
     def floors(self, cov):
+        if cov.get("free_running_histories", 0) < 10:
+            return "fewer than 10 free-running histories"
         if cov.get("appends_that_recreated_a_deleted_node_file", 0) < 50:
             return "header re-creation path exercised fewer than 50 times"
         if cov.get("parse_checks_at_lock_free_instants", 0) < 5000:
